@@ -240,8 +240,9 @@ def run(ctx):
         decls.append({"default": "en", "locales": ["en"], "all_locales": ["en"], "namespaces": None, "inherits": {},
                       "files": {(None, "en"): proj.O(pairs)}, "extra_cfg": False, "meta": {}, "decl": {"refs": refs}})
     generic_pipeline_check(ctx, [], decls, decl_oracle, "C04-declarations")
-    if not ctx.quick:
-        probe.run_render_probe(ctx, rng, n_crates=2, flavours=("string", "view"), sig_prefix="ranges", per_key=6)
+    # what the *generated* `match count { .. }` / if-chains render at run time: counts on and next to every bound of the declared branches
+    probe.run_render_probe(ctx, rng, n_crates=ctx.budget(1, 3), flavours=("string", "view"), sig_prefix="ranges", per_key=6,
+                           opts={"range_heavy": True, "formatted_keys": False, "ordinal_key": False})
     ctx.assumptions += PARSER_ASSUMPTIONS
     finish_broken(ctx, f"{len(cases)} specifications, {total_counts} (spec, count) pairs, {len(decls)} declarations")
     write_evidence(ctx, RULE)
